@@ -171,6 +171,50 @@ func (h *hist) checkAll() {
 		}
 		h.checkSubject("r", sj)
 	}
+	// a continuation request names a cache digest and a page: whatever it names, the answer lists referrers of the
+	// subject in the URL only (the cache digest of one subject's paged answer given with another subject)
+	if !h.bad {
+		m := h.w.Repos["r"]
+		for _, s1 := range h.w.U.Subjects {
+			first := h.w.Do(vh.Req{Method: "GET", URL: "/v2/r/referrers/" + s1})
+			link := first.H.Get("Link")
+			ci := strings.Index(link, "cache=")
+			if first.Status != 200 || ci < 0 {
+				continue
+			}
+			cache := link[ci+6:]
+			if j := strings.IndexAny(cache, "&>"); j >= 0 {
+				cache = cache[:j]
+			}
+			for _, s2 := range h.w.U.Subjects {
+				if s2 == s1 {
+					continue
+				}
+				own := map[string]bool{}
+				for _, d := range m.Referrers(s2) {
+					own[d] = true
+				}
+				for pg := 1; pg <= 2; pg++ {
+					rq := vh.Req{Method: "GET", URL: fmt.Sprintf("/v2/r/referrers/%s?cache=%s&page=%d", s2, cache, pg)}
+					rs := h.w.Do(rq)
+					h.r.Count("foreign_cache_digest_probes", 1)
+					var idx struct {
+						Manifests []struct{ Digest string } `json:"manifests"`
+					}
+					if rs.Status != 200 || json.Unmarshal(rs.Body, &idx) != nil {
+						continue
+					}
+					for _, d := range idx.Manifests {
+						if !own[d.Digest] {
+							h.viol("referrers:foreign-page", fmt.Sprintf("GET %s (the cache digest belongs to the paged answer of %s) lists %s, which is not a referrer of %s", rq.URL, h.w.NameOf(s1), h.w.NameOf(d.Digest), h.w.NameOf(s2)))
+							return
+						}
+					}
+				}
+			}
+			break // one paged subject per round is enough
+		}
+	}
 	// unknown repository, unknown subject: empty index, status 200
 	if !h.bad && h.idx%3 == 0 {
 		rs := h.w.Do(vh.Req{Method: "GET", URL: "/v2/nosuchrepo/referrers/" + h.w.U.Missing})
